@@ -157,8 +157,19 @@ class KernelSpec:
                      message text (only usable in warnings/exceptions)
     calls            {called name: dict(lean=<Lean function: another translated kernel>, args=[kinds], ret=kind)}
     eq_kinds         opaque kinds on which `==` / `!=` is Lean's decidable equality (enum-like values)
-    raises           ret_mode 'except': [(substring of the ast-normalised `raise`/`assert` statement, Lean error term)];
-                     exactly one entry must match each `raise` (and each `assert` that is not constant-true)
+    raises           [(exception class name | 'assert', substring of the ast-normalised statement, Lean error term)]:
+                     every `raise` must be `raise <Name>(<message arguments>)` (no `from`, no bare re-raise) and exactly one
+                     entry must have that class name and a substring of the statement's text; an `assert` that is not
+                     constant-true needs an entry of kind 'assert' (it raises AssertionError, not the class of a `raise`).
+                     ret_mode 'except': the entry's term is the error value; ret_mode 'option': the term is ignored (`none`),
+                     but the class/text match is still required.  Message arguments are restricted (see `_Tr.msg_ok`): they
+                     must not be able to raise themselves (no attribute read through a value that may be None).
+    decorators       the exact list of decorators (ast-normalised text) the function carries; anything else is refused
+                     (a decorator can replace the function: only the ones listed here are known not to)
+    defaults         the exact list of `name=<default>` texts of the function's parameter defaults; anything else is refused
+                     (a default is part of what a caller that omits the argument computes)
+    bound            names that are bound at the selected statements although the selection does not show their assignment
+                     (usable in message arguments only)
     local_kinds      {local name: numeric kind}: a literal assigned to that name is a typed `let` (e.g. a counter that is
                      a natural number: an operation that could make it negative then no longer type-checks)
     for_each         ret_mode 'except': Lean name of the model's `for x in l: f(x)` combinator
@@ -168,7 +179,7 @@ class KernelSpec:
     def __init__(self, file, qualname, lean_name, binders, ret, scalar="rat", names=None, exprs=None, optionals=(),
                  effects=None, ctors=None, inline=None, ret_mode="plain", ret_wrap=None, select=None, outputs=None,
                  fuel=None, float_literals="decimal", notes="", strings=False, calls=None, eq_kinds=(), raises=None,
-                 for_each=None, local_kinds=None):
+                 for_each=None, local_kinds=None, decorators=(), defaults=(), bound=()):
         self.file, self.qualname, self.lean_name = file, qualname, lean_name
         self.binders, self.ret, self.scalar = binders, ret, scalar
         self.names, self.exprs, self.optionals = dict(names or {}), dict(exprs or {}), list(optionals)
@@ -177,6 +188,10 @@ class KernelSpec:
         self.outputs, self.fuel, self.float_literals = outputs, fuel, float_literals
         self.strings, self.calls, self.eq_kinds = bool(strings), dict(calls or {}), tuple(eq_kinds)
         self.raises, self.for_each, self.local_kinds = list(raises or []), for_each, dict(local_kinds or {})
+        self.decorators, self.defaults, self.bound = list(decorators), list(defaults), tuple(bound)
+        for ent in self.raises:
+            if not (isinstance(ent, tuple) and len(ent) == 3 and isinstance(ent[0], str) and isinstance(ent[1], str)):
+                raise ValueError("%s: `raises` entries are (exception class | 'assert', substring, term): %r" % (lean_name, ent))
 
 
 NOOP_CALLS = {"warnings.warn"}
@@ -292,8 +307,9 @@ def slice_function(fn, select):
             if guard:
                 needed |= _loads(test)
                 t = test if pol else ast.UnaryOp(op=ast.Not(), operand=test)
-                built = [ast.If(test=t, body=built, orelse=[ast.Raise(exc=ast.Name(id="_NotReached", ctx=ast.Load()),
-                                                                     cause=None)])]
+                other = ast.Raise(exc=ast.Name(id="_NotReached", ctx=ast.Load()), cause=None)
+                other._synthetic = True
+                built = [ast.If(test=t, body=built, orelse=[other])]
         keep = []
         needed -= stop_names
         for s in reversed(b[:n]):
@@ -326,6 +342,22 @@ def slice_function(fn, select):
                     raise Refuse("slice %r: name(s) %s are assigned inside a %s statement outside the slice"
                                  % (targets, hit, type(s).__name__))
         built = list(reversed(keep)) + built
+    if targets != ["return"]:
+        # a later store to a selected name (in any following statement of the function, however nested) would make the
+        # value the rest of the function uses differ from the value of the slice
+        later = list(block[last + 1:])
+        for (b, i, pol) in path:
+            later += b[i + 1:]
+        for st in later:
+            for sub in ast.walk(st):
+                nm = None
+                if isinstance(sub, ast.Name) and isinstance(sub.ctx, (ast.Store, ast.Del)) and sub.id in targets:
+                    nm = sub.id
+                elif isinstance(sub, (ast.Global, ast.Nonlocal)) and set(sub.names) & set(targets):
+                    nm = sorted(set(sub.names) & set(targets))[0]
+                if nm is not None:
+                    raise Refuse("slice %r: `%s` is assigned again after the slice (line %d, in `%s`)"
+                                 % (targets, nm, getattr(sub, "lineno", st.lineno), ast.unparse(st).split("\n")[0][:80]))
     for s in built:
         ast.fix_missing_locations(s)
     return built
@@ -433,6 +465,7 @@ class _Tr:
         self.S = self.sc["cls"] if self.alpha else None
         self.opt = {o.py: o for o in spec.optionals}
         self.tree, self.src_text = tree, src_text
+        self.params = set()  # parameter names of the function (set by `translate`): bound names usable in messages
         self.aux = []  # auxiliary defs (while loops)
         self.nloops = 0
         self.outputs = spec.outputs
@@ -1004,6 +1037,7 @@ class _Tr:
             return self.format_call(node, env)
         if fn == "dict" or (isinstance(node.func, ast.Attribute) and node.func.attr == "format"
                             and isinstance(node.func.value, ast.Constant) and isinstance(node.func.value.value, str)):
+            self.msg_ok(node, env)  # evaluated where it stands: it must not be able to raise
             return Val(None, "msg")  # message arguments (dict(...), "...".format(...)): not part of the value
         if fn in ("any", "all") and len(node.args) == 1 and not node.keywords \
                 and isinstance(node.args[0], (ast.GeneratorExp, ast.ListComp)):
@@ -1279,6 +1313,7 @@ class _Tr:
 
     def e_JoinedStr(self, node, env):
         if not self.spec.strings:
+            self.msg_ok(node, env)
             return Val(None, "msg")  # message text
         parts = []
         for v in node.values:
@@ -1399,6 +1434,7 @@ class _Tr:
             if isinstance(s.value, ast.Call):
                 fn = self.canon(s.value.func, env)
                 if fn in NOOP_CALLS:
+                    self.noop_args(s.value, env)
                     return self.stmts(rest, env, ind)  # warnings are not part of the value
                 eff = self.spec.effects.get(fn)
                 if eff == "result":
@@ -1417,7 +1453,7 @@ class _Tr:
             if t.const is True:
                 return self.stmts(rest, env, ind)
             if self.spec.ret_mode == "except" and not self.plain_ret:
-                err = pad + "Except.error %s" % self.atom(self.raise_term(s))
+                err = pad + "Except.error %s" % self.atom(self.raise_term(s, env))
                 if t.const is False:
                     return err
                 return "%sif %s then\n%s\n%selse\n  %s" % (pad, self.as_prop(t, s), self.stmts(rest, env.child(), ind + 1), pad, err)
@@ -1434,11 +1470,13 @@ class _Tr:
             if self.plain_ret:
                 self.bad(s, "`raise` inside a loop that accumulates values")
             if self.spec.ret_mode == "except":
-                return pad + "Except.error %s" % self.atom(self.raise_term(s))
+                return pad + "Except.error %s" % self.atom(self.raise_term(s, env))
             if self.in_for:
                 self.bad(s, "`raise` inside a `for` loop of a kernel whose errors are not distinguished")
             if self.spec.ret_mode != "option":
                 self.bad(s, "`raise` in a kernel without an error alternative")
+            if not getattr(s, "_synthetic", False):  # (the guard of a guarded slice: "this path is outside the slice")
+                self.raise_term(s, env)  # the exception class and text must be the declared ones; the value is `none`
             return pad + "none"
         if isinstance(s, ast.Assign):
             return self.assign(s, rest, env, ind)
@@ -1466,13 +1504,180 @@ class _Tr:
             return self.for_(s, rest, env, ind)
         self.bad(s, "statement of type %s is not in the whitelist" % type(s).__name__)
 
-    def raise_term(self, s):
-        """Lean error term of a `raise` / failing `assert`, chosen by the text of the statement (`raises` of the spec)"""
+    def raise_term(self, s, env):
+        """Lean error term of a `raise` / failing `assert`: the entry of the spec's `raises` with the statement's exception
+        class (`assert`: the kind 'assert') and a substring of its text; the message arguments must be harmless."""
         text = ast.unparse(s)
-        hits = [(k, t) for k, t in self.spec.raises if k in text]
+        if isinstance(s, ast.Assert):
+            cls, msgs = "assert", ([s.msg] if s.msg is not None else [])
+        else:
+            e = s.exc
+            if e is None:
+                self.bad(s, "bare `raise` (re-raise)")
+            if s.cause is not None:
+                self.bad(s, "`raise ... from ...`")
+            if not (isinstance(e, ast.Call) and isinstance(e.func, ast.Name)):
+                self.bad(s, "`raise` of anything but a call of a named exception class")
+            if any(isinstance(a, ast.Starred) for a in e.args) or any(k.arg is None for k in e.keywords):
+                self.bad(s, "`raise` with * / ** arguments")
+            cls, msgs = e.func.id, list(e.args) + [k.value for k in e.keywords]
+        for m in msgs:
+            self.msg_ok(m, env)
+        hits = [ent for ent in self.spec.raises if ent[0] == cls and ent[1] in text]
         if len(hits) != 1:
-            self.bad(s, "%d entries of this kernel's `raises` match the statement (need exactly 1)" % len(hits))
-        return hits[0][1]
+            self.bad(s, "%d entries of this kernel's `raises` match the statement's exception class (%s) and text (need "
+                        "exactly 1)" % (len(hits), "AssertionError of an assert" if cls == "assert" else cls))
+        return hits[0][2]
+
+    # ---- message arguments (of raise / assert / warnings.warn / dict(...) / "..".format(...) used as message text)
+
+    def msg_chain(self, node, env, whole_mapped=False):
+        """`root.a1.a2...an` in a message: the root must be bound and every proper prefix `root.a1..ai` (i < n) must be a
+        mapped expression that cannot be None (an unmapped or Option-typed intermediate value may be None: reading an
+        attribute of it raises AttributeError instead of the exception the kernel is tied to)."""
+        try:
+            node = ast.parse(self.canon(node, env), mode="eval").body  # local object aliases expanded
+        except SyntaxError:
+            self.bad(node, "message argument")
+        chain, n = [], node
+        while isinstance(n, ast.Attribute):
+            chain.append(n)
+            n = n.value
+        if not isinstance(n, ast.Name):
+            self.bad(node, "message argument that is not an attribute chain on a name")
+        root = n.id
+
+        def optional(text, nd):
+            """True if the value may be None here; refuses if nothing is known about it"""
+            if text in self.opt:
+                return env.none.get(text) is not False
+            for o in self.spec.optionals:
+                if text in o.payload:
+                    return env.none.get(o.py) is not False
+            v = env.over.get(text)
+            k = v.kind if v is not None else (env.exprs[text][1] if text in env.exprs else None)
+            if k is None:
+                if self.is_object_path(text, env):
+                    return False  # a prefix of mapped expressions: the kernel's domain has an object there
+                self.bad(nd, "message argument reads through `%s`, which is not a mapped expression of this kernel (it may "
+                             "be None)" % text)
+            return k.startswith("option:") or k == "none"
+
+        # the root
+        if root in env.names:
+            v = env.names[root]
+            k = v[1] if isinstance(v, tuple) else v.kind
+            if chain and (k.startswith("option:") or k == "none"):
+                self.bad(node, "message argument reads an attribute of `%s`, which may be None" % root)
+        elif root in self.opt:
+            if chain and env.none.get(root) is not False:
+                self.bad(node, "message argument reads an attribute of `%s`, which may be None" % root)
+        elif not (root in self.params or root in self.spec.bound or self.is_object_path(root, env)):
+            self.bad(node, "message argument uses the name `%s`, which is not known to be bound" % root)
+        for a in chain[1:] + (chain[:1] if whole_mapped else []):  # proper prefixes (chain[0] is the whole expression)
+            if optional(ast.unparse(a), a):
+                self.bad(node, "message argument reads through `%s`, which may be None" % ast.unparse(a))
+
+    def msg_ok(self, node, env):
+        """refuse a message argument that could raise an exception of its own"""
+        if isinstance(node, ast.Constant):
+            return
+        if isinstance(node, ast.JoinedStr):
+            for v in node.values:
+                if isinstance(v, ast.Constant):
+                    continue
+                if not isinstance(v, ast.FormattedValue):
+                    self.bad(node, "f-string part of type %s in a message" % type(v).__name__)
+                fs = v.format_spec
+                if fs is not None and not (isinstance(fs, ast.JoinedStr) and all(isinstance(x, ast.Constant) for x in fs.values)):
+                    self.bad(node, "computed format spec in a message")
+                self.msg_ok(v.value, env)
+            return
+        if isinstance(node, ast.BinOp) and isinstance(node.op, ast.Add):
+            self.msg_ok(node.left, env)
+            self.msg_ok(node.right, env)
+            return
+        if isinstance(node, ast.Call):
+            f = node.func
+            if any(isinstance(a, ast.Starred) for a in node.args):
+                self.bad(node, "* argument in a message")
+            if isinstance(f, ast.Attribute) and f.attr == "format" and isinstance(f.value, ast.Constant) \
+                    and isinstance(f.value.value, str):
+                return self.msg_format(node, env)
+            if isinstance(f, ast.Name) and f.id == "dict" and not node.args:
+                for k in node.keywords:
+                    if k.arg is None:
+                        self.bad(node, "** argument in a message dict")
+                    self.msg_ok(k.value, env)
+                return
+            if isinstance(f, ast.Name) and f.id in ("str", "repr") and len(node.args) == 1 and not node.keywords:
+                return self.msg_ok(node.args[0], env)
+            if isinstance(f, ast.Name) and f.id == "len" and len(node.args) == 1 and not node.keywords:
+                # len() of a mapped list (len(None) raises TypeError)
+                v = self.lookup(self.canon(node.args[0], env), node, env)
+                if v is None or not (v.kind.startswith("list:") or v.kind in ("vec", "str")):
+                    self.bad(node, "len() in a message of anything but a mapped list")
+                return self.msg_chain(node.args[0], env, whole_mapped=True)
+            self.bad(node, "call in a message argument other than str()/repr()/len(<mapped list>)/dict(k=..)/'..'.format(..)")
+        if isinstance(node, ast.IfExp):
+            self.truth(self.expr(node.test, env), node)  # the test must be inside the whitelist (it is evaluated)
+            self.msg_ok(node.body, env)
+            self.msg_ok(node.orelse, env)
+            return
+        if isinstance(node, (ast.Name, ast.Attribute)):
+            return self.msg_chain(node, env)
+        self.bad(node, "message argument of type %s" % type(node).__name__)
+
+    def msg_format(self, node, env):
+        """`"..{name.attr}..".format(name=e, ...)` as message text: every argument and every field (with the attribute
+        accesses the format string adds) is checked; `**d` only for a local that was built by `dict(k=..)` (checked there)"""
+        import string
+
+        kw = {}
+        for k in node.keywords:
+            if k.arg is None:
+                v = env.names.get(k.value.id) if isinstance(k.value, ast.Name) else None
+                if not (isinstance(v, Val) and v.kind == "msg"):
+                    self.bad(node, "** argument of format() that is not a local built by dict(k=..)")
+                if len(node.keywords) != 1 or node.args:
+                    self.bad(node, "format(**d) mixed with other arguments")
+                return  # the fields are the dict's values (already checked; a missing key is a KeyError: not modelled)
+            kw[k.arg] = k.value
+            self.msg_ok(k.value, env)
+        for a in node.args:
+            self.msg_ok(a, env)
+        try:
+            fields = list(string.Formatter().parse(node.func.value.value))
+        except ValueError as e:
+            self.bad(node, "format string does not parse: %s" % e)
+        auto = 0
+        for lit, name, spec, conv in fields:
+            if name is None:
+                continue
+            if "{" in (spec or ""):
+                self.bad(node, "nested format spec in a message")
+            m = re.fullmatch(r"([A-Za-z_]\w*|\d*)((?:\.[A-Za-z_]\w*)*)", name)
+            if not m:
+                self.bad(node, "format field name %r in a message" % name)
+            head, attrs = m.group(1), m.group(2)
+            if head == "" or head.isdigit():
+                i = auto if head == "" else int(head)
+                auto += head == ""
+                if i >= len(node.args):
+                    self.bad(node, "format field %r without an argument" % name)
+                base = node.args[i]
+            else:
+                if head not in kw:
+                    self.bad(node, "format field %r without a keyword argument" % name)
+                base = kw[head]
+            if not attrs:
+                continue
+            e = copy.deepcopy(base)
+            for a in [x for x in attrs.split(".") if x]:
+                e = ast.Attribute(value=e, attr=a, ctx=ast.Load())
+            ast.copy_location(e, node)
+            ast.fix_missing_locations(e)
+            self.msg_ok(e, env)
 
     def for_(self, s, rest, env, ind):
         """`for x in <mapped list>: body`.
@@ -1545,11 +1750,19 @@ class _Tr:
                 after.names[n] = Val(sv[i], kinds[n].kind)
         return out + self.stmts(rest, after, ind)
 
+    def noop_args(self, call, env):
+        """arguments of a call that is not part of the value (`warnings.warn(msg)`): they are still evaluated"""
+        if any(isinstance(a, ast.Starred) for a in call.args) or any(k.arg is None for k in call.keywords):
+            self.bad(call, "* / ** arguments")
+        for a in list(call.args) + [k.value for k in call.keywords]:
+            self.msg_ok(a, env)
+
     def only_noops(self, body, env):
         for s in body:
             if isinstance(s, ast.Pass):
                 continue
             if isinstance(s, ast.Expr) and isinstance(s.value, ast.Call) and self.canon(s.value.func, env) in NOOP_CALLS:
+                self.noop_args(s.value, env)
                 continue
             return False
         return True
@@ -1855,8 +2068,18 @@ def translate(spec, repo):
     except (OSError, SyntaxError) as e:
         raise Refuse("cannot read/parse %s: %s" % (spec.file, e))
     tr = _Tr(spec, tree=tree, src_text=open(path, encoding="utf-8").read())
+    tr.params = {a.arg for a in fn.args.posonlyargs + fn.args.args}
     if fn.args.vararg or fn.args.kwarg or fn.args.kwonlyargs:
         raise Refuse("%s: *args/**kwargs/keyword-only parameters" % spec.qualname)
+    # what the statements of the body do not show: decorators (can replace the function) and parameter defaults (what a
+    # caller that omits the argument computes).  Both are pinned by the spec.
+    decos = [ast.unparse(d) for d in fn.decorator_list]
+    if decos != list(spec.decorators):
+        raise Refuse("%s: decorators %r (the kernel's spec allows exactly %r)" % (spec.qualname, decos, list(spec.decorators)))
+    pos = fn.args.posonlyargs + fn.args.args
+    dflt = ["%s=%s" % (a.arg, ast.unparse(d)) for a, d in zip(pos[len(pos) - len(fn.args.defaults):], fn.args.defaults)]
+    if dflt != list(spec.defaults):
+        raise Refuse("%s: parameter defaults %r (the kernel's spec pins %r)" % (spec.qualname, dflt, list(spec.defaults)))
     body = fn.body
     sel = spec.select
     if sel is not None:
